@@ -940,6 +940,25 @@ pub fn run_tower(prop: Prop, h: &History, st: &mut Stats) -> Outcome {
                         }
                     }
                 }
+                // "... or on which internal fast path was taken": a clip path that covers the whole
+                // surface is neutral bit for bit, yet it sends the call through the blitters and
+                // row procedures that multiply a clip coverage in (checked at the base level,
+                // while no other clip path is in force)
+                if prop == Prop::C03 && levels.len() == 1 && cv.k.is_none() && !matches!(op, Op::PopLayer) {
+                    let shadow = levels[0].world.shadows[0].clone();
+                    match mk::guarded(budget, || mk::draw_under_covering_clip_path(w, hh, &prev, &shadow, op)) {
+                        Ok(px) => {
+                            st.count("perturbation.neutral_bracket");
+                            if let Some(d) = first_diff(&obs, &px, w) {
+                                return viol("c03.covering-clip-path-changes-the-result", i, format!("{} [{}]: as drawn vs under one more clip, a path that covers the whole surface: {}", op.name(), BLEND_NAMES[mode as usize % 28], d));
+                            }
+                        }
+                        Err(pi) => {
+                            st.abort(&panic_class(&pi));
+                            return Outcome::Aborted(format!("covering clip path twin: {}", panic_desc(&pi)));
+                        }
+                    }
+                }
                 if let Some(cov) = &cov {
                     checked_draws += 1;
                     for p in 0..n {
